@@ -221,6 +221,338 @@ func (r *renderer) funcLit(x *ast.FuncLit) string {
 	return "{…}"
 }
 
+
+// ---------------------------------------------------------------- expression IR (interpreted tie A)
+
+type irCtx struct {
+	f      *fn
+	params map[*ast.Object]int
+	multi  map[*ast.Object]int
+	tuple  map[*ast.Object]tupleDef
+	rangeV map[*ast.Object]string
+	lits   map[*ast.Object]int
+}
+
+type tupleDef struct {
+	rhs ast.Expr
+	idx int
+}
+
+func newIR(f *fn) *irCtx {
+	c := &irCtx{f: f, params: map[*ast.Object]int{}, multi: map[*ast.Object]int{}, tuple: map[*ast.Object]tupleDef{}, rangeV: map[*ast.Object]string{}, lits: map[*ast.Object]int{}}
+	i := 0
+	if f.decl.Type.Params != nil {
+		for _, p := range f.decl.Type.Params.List {
+			for _, n := range p.Names {
+				if n.Obj != nil {
+					c.params[n.Obj] = i
+				}
+				i++
+			}
+		}
+	}
+	ast.Inspect(f.decl.Body, func(n ast.Node) bool {
+		switch s := n.(type) {
+		case *ast.FuncLit:
+			k := 0
+			if s.Type.Params != nil {
+				for _, p := range s.Type.Params.List {
+					for _, nm := range p.Names {
+						if nm.Obj != nil {
+							c.lits[nm.Obj] = k
+						}
+						k++
+					}
+				}
+			}
+		case *ast.RangeStmt:
+			if id, ok := s.Key.(*ast.Ident); ok && id.Obj != nil {
+				c.rangeV[id.Obj] = "#rk"
+			}
+			if id, ok := s.Value.(*ast.Ident); ok && id.Obj != nil {
+				c.rangeV[id.Obj] = "#rv"
+			}
+		case *ast.AssignStmt:
+			if s.Tok == token.DEFINE && len(s.Lhs) > 1 && len(s.Rhs) == 1 {
+				for k, l := range s.Lhs {
+					if id, ok := l.(*ast.Ident); ok && id.Obj != nil && id.Name != "_" {
+						if _, seen := c.tuple[id.Obj]; !seen && f.count[id.Obj] == 1 {
+							c.tuple[id.Obj] = tupleDef{s.Rhs[0], k}
+						}
+					}
+				}
+			}
+			for _, l := range s.Lhs {
+				if id, ok := l.(*ast.Ident); ok && id.Obj != nil && id.Name != "_" {
+					if _, isP := c.params[id.Obj]; isP {
+						continue
+					}
+					if f.count[id.Obj] > 1 {
+						if _, seen := c.multi[id.Obj]; !seen {
+							c.multi[id.Obj] = len(c.multi)
+						}
+					}
+				}
+			}
+		case *ast.DeclStmt:
+			if gd, ok := s.Decl.(*ast.GenDecl); ok {
+				for _, sp := range gd.Specs {
+					if vs, ok := sp.(*ast.ValueSpec); ok {
+						for _, nm := range vs.Names {
+							if nm.Obj != nil {
+								if _, seen := c.multi[nm.Obj]; !seen {
+									c.multi[nm.Obj] = len(c.multi)
+								}
+							}
+						}
+					}
+				}
+			}
+		}
+		return true
+	})
+	return c
+}
+
+func q(s string) string { return strconv.Quote(s) }
+
+// a chain of selectors over a non-local identifier, e.g. this.conf.logID, filepath.Separator
+func (c *irCtx) path(e ast.Expr) (string, bool) {
+	switch x := e.(type) {
+	case *ast.Ident:
+		if c.f.isLocal(x) {
+			return "", false
+		}
+		return x.Name, true
+	case *ast.SelectorExpr:
+		if p, ok := c.path(x.X); ok {
+			return p + "." + x.Sel.Name, true
+		}
+	}
+	return "", false
+}
+
+func (c *irCtx) ir(e ast.Expr, depth int) string {
+	if depth > 40 {
+		return "(.opaque \"deep\")"
+	}
+	switch x := e.(type) {
+	case *ast.ParenExpr:
+		return c.ir(x.X, depth+1)
+	case *ast.Ident:
+		if c.f.isLocal(x) {
+			if k, ok := c.lits[x.Obj]; ok {
+				return fmt.Sprintf("(.var \"#l%d\")", k)
+			}
+			if k, ok := c.params[x.Obj]; ok {
+				return fmt.Sprintf("(.var \"#p%d\")", k)
+			}
+			if n, ok := c.rangeV[x.Obj]; ok {
+				return fmt.Sprintf("(.var %s)", q(n))
+			}
+			if d, ok := c.f.defs[x.Obj]; ok && c.f.count[x.Obj] == 1 {
+				return c.ir(d, depth+1)
+			}
+			if t, ok := c.tuple[x.Obj]; ok {
+				return fmt.Sprintf("(.call1 \"#proj%d\" %s)", t.idx, c.ir(t.rhs, depth+1))
+			}
+			if k, ok := c.multi[x.Obj]; ok {
+				return fmt.Sprintf("(.var \"#m%d\")", k)
+			}
+			return fmt.Sprintf("(.opaque %s)", q("local "+x.Name))
+		}
+		return fmt.Sprintf("(.var %s)", q(x.Name))
+	case *ast.BasicLit:
+		switch x.Kind {
+		case token.INT:
+			if v, err := strconv.ParseInt(x.Value, 0, 64); err == nil {
+				return fmt.Sprintf("(.int %d)", v)
+			}
+		case token.STRING:
+			if v, err := strconv.Unquote(x.Value); err == nil {
+				return fmt.Sprintf("(.str %s)", q(v))
+			}
+		case token.CHAR:
+			if v, err := strconv.Unquote(x.Value); err == nil && len([]rune(v)) == 1 {
+				return fmt.Sprintf("(.int %d)", []rune(v)[0])
+			}
+		}
+		return fmt.Sprintf("(.opaque %s)", q(x.Value))
+	case *ast.BinaryExpr:
+		return fmt.Sprintf("(.bin %s %s %s)", q(x.Op.String()), c.ir(x.X, depth+1), c.ir(x.Y, depth+1))
+	case *ast.UnaryExpr:
+		return fmt.Sprintf("(.un %s %s)", q(x.Op.String()), c.ir(x.X, depth+1))
+	case *ast.SelectorExpr:
+		if p, ok := c.path(x); ok {
+			return fmt.Sprintf("(.var %s)", q(p))
+		}
+		return fmt.Sprintf("(.call1 %s %s)", q("."+x.Sel.Name), c.ir(x.X, depth+1))
+	case *ast.SliceExpr:
+		lo, hi := "(.int 0)", ""
+		if x.Low != nil {
+			lo = c.ir(x.Low, depth+1)
+		}
+		if x.High != nil {
+			hi = c.ir(x.High, depth+1)
+		} else {
+			hi = fmt.Sprintf("(.call1 \"len\" %s)", c.ir(x.X, depth+1))
+		}
+		return fmt.Sprintf("(.slice %s %s %s)", c.ir(x.X, depth+1), lo, hi)
+	case *ast.FuncLit:
+		if len(x.Body.List) == 1 {
+			if rs, ok := x.Body.List[0].(*ast.ReturnStmt); ok && len(rs.Results) == 1 {
+				return fmt.Sprintf("(.pred %s)", c.ir(rs.Results[0], depth+1))
+			}
+		}
+		return "(.opaque \"func\")"
+	case *ast.ArrayType:
+		return fmt.Sprintf("(.opaque %s)", q(c.f.render(x)))
+	case *ast.CallExpr:
+		var args []string
+		name := ""
+		switch fun := x.Fun.(type) {
+		case *ast.Ident:
+			name = fun.Name
+		case *ast.SelectorExpr:
+			if p, ok := c.path(fun); ok {
+				name = p
+			} else {
+				name = "." + fun.Sel.Name
+				args = append(args, c.ir(fun.X, depth+1))
+			}
+		default:
+			return fmt.Sprintf("(.opaque %s)", q(c.f.render(x)))
+		}
+		for _, a := range x.Args {
+			args = append(args, c.ir(a, depth+1))
+		}
+		if len(args) > 3 {
+			return fmt.Sprintf("(.opaque %s)", q(c.f.render(x)))
+		}
+		return fmt.Sprintf("(.call%d %s%s)", len(args), q(name), func() string {
+			if len(args) == 0 {
+				return ""
+			}
+			return " " + strings.Join(args, " ")
+		}())
+	}
+	return fmt.Sprintf("(.opaque %s)", q(c.f.render(e)))
+}
+
+type irFacts struct {
+	checkOkConds, checkOkPut                         []string
+	readGuards, readSets, readAtArgs, readNewLogData []string
+	readNext                                         []string
+	retentionGuards, retentionReturns, removeCond    []string
+}
+
+func collectIR(f *fn, out *irFacts) {
+	c := newIR(f)
+	ast.Inspect(f.decl.Body, func(n ast.Node) bool {
+		switch s := n.(type) {
+		case *ast.IfStmt:
+			single := len(s.Body.List) == 1
+			kind := ""
+			if single && s.Else == nil {
+				switch b := s.Body.List[0].(type) {
+				case *ast.ReturnStmt:
+					kind = "return"
+				case *ast.BranchStmt:
+					if b.Tok == token.CONTINUE {
+						kind = "continue"
+					}
+				case *ast.AssignStmt:
+					if len(b.Lhs) == 1 && len(b.Rhs) == 1 {
+						kind = "set"
+					}
+				}
+			}
+			switch f.name {
+			case "checkOk":
+				out.checkOkConds = append(out.checkOkConds, c.ir(s.Cond, 0))
+			case "Read":
+				switch kind {
+				case "return":
+					out.readGuards = append(out.readGuards, c.ir(s.Cond, 0))
+				case "set":
+					a := s.Body.List[0].(*ast.AssignStmt)
+					out.readSets = append(out.readSets, fmt.Sprintf("(%s, %s, %s)", c.ir(s.Cond, 0), c.ir(a.Lhs[0], 0), c.ir(a.Rhs[0], 0)))
+				}
+				if single && s.Else != nil {
+					if eb, ok := s.Else.(*ast.BlockStmt); ok && len(eb.List) == 1 {
+						a, ok1 := s.Body.List[0].(*ast.AssignStmt)
+						b, ok2 := eb.List[0].(*ast.AssignStmt)
+						if ok1 && ok2 && len(a.Rhs) == 1 && len(b.Rhs) == 1 {
+							out.readNext = append(out.readNext, c.ir(s.Cond, 0), c.ir(a.Rhs[0], 0), fmt.Sprintf("(.str %s)", q(b.Tok.String())), c.ir(b.Rhs[0], 0))
+						}
+					}
+				}
+			case "clearOldLog":
+				switch kind {
+				case "continue":
+					out.retentionGuards = append(out.retentionGuards, c.ir(s.Cond, 0))
+				case "return":
+					out.retentionReturns = append(out.retentionReturns, c.ir(s.Cond, 0))
+				}
+				hasRemove := false
+				for _, st := range s.Body.List {
+					ast.Inspect(st, func(m ast.Node) bool {
+						if ce, ok := m.(*ast.CallExpr); ok && strings.HasSuffix(f.render(ce.Fun), "os.Remove") {
+							hasRemove = true
+						}
+						return true
+					})
+				}
+				if hasRemove {
+					out.removeCond = append(out.removeCond, c.ir(s.Cond, 0))
+				}
+			}
+		case *ast.CallExpr:
+			callee := f.render(s.Fun)
+			argsIR := func() []string {
+				var a []string
+				for _, x := range s.Args {
+					a = append(a, c.ir(x, 0))
+				}
+				return a
+			}
+			switch {
+			case f.name == "checkOk" && strings.HasSuffix(callee, "lastLog.Put"):
+				out.checkOkPut = append(out.checkOkPut, argsIR()...)
+			case f.name == "Read" && strings.HasSuffix(callee, ".ReadAt"):
+				out.readAtArgs = append(out.readAtArgs, argsIR()...)
+			case f.name == "Read" && strings.HasSuffix(callee, "NewLogData"):
+				out.readNewLogData = append(out.readNewLogData, argsIR()...)
+			}
+		}
+		return true
+	})
+}
+
+func (o *irFacts) write(b *strings.Builder) {
+	list := func(name, typ string, xs []string) {
+		fmt.Fprintf(b, "def %s : List (%s) := [\n", name, typ)
+		for i, x := range xs {
+			sep := ","
+			if i == len(xs)-1 {
+				sep = ""
+			}
+			fmt.Fprintf(b, "  %s%s\n", x, sep)
+		}
+		b.WriteString("]\n\n")
+	}
+	list("checkOkConds", "E", o.checkOkConds)
+	list("checkOkPut", "E", o.checkOkPut)
+	list("readGuards", "E", o.readGuards)
+	list("readSets", "E × E × E", o.readSets)
+	list("readAtArgs", "E", o.readAtArgs)
+	list("readNewLogData", "E", o.readNewLogData)
+	list("readNext", "E", o.readNext)
+	list("retentionGuards", "E", o.retentionGuards)
+	list("retentionReturns", "E", o.retentionReturns)
+	list("removeCond", "E", o.removeCond)
+}
+
 var selected = []string{"myLog.Println", "os.Open", "os.OpenFile", "os.Remove", ".ReadAt", "NewLogData", "lastLog.Put", ".SetMax", "filepath.Rel", "this.println"}
 
 // the functions the property is about
@@ -313,6 +645,7 @@ func main() {
 	dh := parse(filepath.Join(*repo, "util/dateutil/DateTimeHelper.go"))
 	cs := consts([]*ast.File{fl, lg, dh})
 
+	var irs irFacts
 	var guards, calls, returns, conds [][]string
 	var gates [][]string
 	order := "unknown"
@@ -324,6 +657,7 @@ func main() {
 			continue
 		}
 		f := analyse(fd)
+		collectIR(f, &irs)
 		gateDone := false
 		ast.Inspect(fd.Body, func(n ast.Node) bool {
 			switch s := n.(type) {
@@ -503,7 +837,7 @@ func main() {
 
 	var b strings.Builder
 	b.WriteString("-- generated by xlate/c17 from logger/logfile/FileLogger.go, logger/Logger.go, util/dateutil/DateTimeHelper.go; do not edit\n")
-	b.WriteString("namespace Gen.C17\n\n")
+	b.WriteString("import Golib.Logger.ExprIR\n\nnamespace Gen.C17\nopen Logger.IR\n\n")
 	tuple := func(r []string) string {
 		var q []string
 		for _, x := range r {
@@ -539,6 +873,7 @@ func main() {
 	}
 	cn = append(cn, fmt.Sprintf("(%s, %d)", lit("lastLog.SetMax"), setMax))
 	fmt.Fprintf(&b, "def consts : List (String × Int) := [%s]\n\n", strings.Join(cn, ", "))
+	irs.write(&b)
 	b.WriteString("end Gen.C17\n")
 	if *out == "" {
 		os.Stdout.WriteString(b.String())
